@@ -74,4 +74,9 @@ CHECKS = {
   "text": "GBNHandshake.tla models clientHandshake/serverHandshake (timeouts, resent flag, restart on SYN, completion on SYNACK or DATA after a restart, failure on unexpected packets, rejection of window 255) over lossy/duplicating FIFO channels that may start with stale packets; TLC checks AgreeN, SrvNProposed, termination for all interleavings of small fault budgets and nine stale prefixes, and convergence under fairness; real handshakes run under virtual time for every pattern of up to three drops/duplicates over the first packets of each direction, stale packets of every type in either direction, several windows and start orders, followed by a message each way, and the traces (wire events, hooks at every examined packet and timeout, results, adopted windows) are validated against the specification.",
   "note": "stale packets are a prefix of the channels; a left-over handshake packet reaching an endpoint already in the data phase ends that connection visibly, so data flow is required only when none is left; a side still in its handshake when the harness gives up (40 virtual s) is not judged",
  },
+ "C13": {
+  "text": "KeepAlive.tla is a discrete-time model of the send loop's locations (outer select, full-window select, resend/sync wait), the ping/pong/resend count-downs, the receive loop's timer resets and a peer that may die at any instant; TLC checks DetectDead (bound ping + pong + two resend/sync waits) for every death instant, amount of queued data and loop location, and NoFalseClose for a responsive peer; real keepalive connections are silenced at many instants with 0..n+2 queued messages under three ping/pong settings (incl. the mailbox's 5/7/3 s), static and adaptive resend timeouts, healthy links are left idle for thousands of virtual seconds with latencies just below the pong timeout, and a timed observer specification validates every trace.",
+  "note": "trace bound: ping + pong + 6 x resend timeout at the end of the run + 2.5 s; the model's time unit is abstract",
+  "technique": "TLA+ timed model checking (TLC) + trace validation by a timed observer specification",
+ },
 }
